@@ -548,6 +548,19 @@ def _split_simple_statements(stmts):
             continue
         if isinstance(s, ast.AnnAssign) and s.value is not None and isinstance(s.target, ast.Name):
             s = ast.copy_location(ast.Assign(targets=[s.target], value=s.value), s)
+        if isinstance(s, ast.Assign) and len(s.targets) == 1 and isinstance(s.targets[0], (ast.Name, ast.Attribute)) and isinstance(s.value, ast.IfExp):
+            # `x = a if c else b`  ->  `if c: x = a  else: x = b`
+            ie = s.value
+            mk = lambda v: ast.copy_location(ast.Assign(targets=[copy.deepcopy(s.targets[0])], value=v), s)
+            s = ast.copy_location(ast.If(test=ie.test, body=[mk(ie.body)], orelse=[mk(ie.orelse)]), s)
+            out.extend(_split_simple_statements([s]))
+            continue
+        if isinstance(s, ast.Return) and isinstance(s.value, ast.IfExp):
+            ie = s.value
+            s = ast.copy_location(ast.If(test=ie.test, body=[ast.copy_location(ast.Return(value=ie.body), s)],
+                                         orelse=[ast.copy_location(ast.Return(value=ie.orelse), s)]), s)
+            out.extend(_split_simple_statements([s]))
+            continue
         if isinstance(s, ast.Assign) and len(s.targets) == 2 and isinstance(s.targets[0], ast.Name) and isinstance(s.targets[1], ast.Attribute) \
                 and isinstance(s.targets[1].value, ast.Name):
             # `a = self.x = v`  ->  `self.x = v; a = self.x`   (a plain instance attribute reads back what was stored)
@@ -936,6 +949,8 @@ def normalize(tree):
     tree._inlined_helpers = set(inl.inlined_names)
     consts = _module_const_tuples(tree)
     for node in ast.walk(tree):
+        if isinstance(node, ast.FunctionDef) and _is_njit(node):
+            node.body = _split_simple_statements(node.body)       # statement forms only; kernels are otherwise read by the walker
         if isinstance(node, ast.FunctionDef) and not _is_njit(node):
             node.body = _split_simple_statements(node.body)
             if consts:
@@ -1210,3 +1225,27 @@ def canonicalise_anchor_functions(trees):
                             if a.asname in local_names:
                                 a.asname = None
     return ren
+
+
+def positionalise_kernel_calls(trees):
+    """`_kernel(a, b, key=k, value=v)` -> `_kernel(a, b, k, v)` when the keywords name exactly the remaining parameters: the rules
+    read kernel arguments by position."""
+    kernels = {}
+    for short, tree in trees.items():
+        for name, node in _kernel_defs(tree).items():
+            kernels[(short, name)] = node
+    for short, tree in trees.items():
+        imports = _imports_of(tree)
+        for c in ast.walk(tree):
+            if not (isinstance(c, ast.Call) and isinstance(c.func, ast.Name) and c.keywords):
+                continue
+            key = (short, c.func.id) if (short, c.func.id) in kernels else \
+                ((imports[c.func.id][0], imports[c.func.id][1]) if c.func.id in imports and (imports[c.func.id][0], imports[c.func.id][1]) in kernels else None)
+            if key is None or any(isinstance(a, ast.Starred) for a in c.args) or any(k.arg is None for k in c.keywords):
+                continue
+            params = [a.arg for a in kernels[key].args.args]
+            rest = params[len(c.args):]
+            kw = {k.arg: k.value for k in c.keywords}
+            if set(kw) == set(rest) and len(kw) == len(c.keywords):
+                c.args = list(c.args) + [kw[p_] for p_ in rest]
+                c.keywords = []
